@@ -517,33 +517,43 @@ Proof. induction l as [|x l IH]; simpl; [destruct r; reflexivity|]. rewrite IH. 
 Lemma skipn_exact {A} (l r : list A) : skipn (length l) (l ++ r) = r.
 Proof. induction l as [|x l IH]; simpl; [reflexivity|exact IH]. Qed.
 
+Lemma put_cells (content : list lp) x r :
+  firstn (length (content ++ repeat nil_lp (S r)))
+         ((content ++ [x]) ++ skipn (length (content ++ [x])) (content ++ repeat nil_lp (S r)))
+  = (content ++ [x]) ++ repeat nil_lp r.
+Proof.
+  replace (content ++ repeat nil_lp (S r)) with ((content ++ [nil_lp]) ++ repeat nil_lp r)
+    by (rewrite <- app_assoc; reflexivity).
+  replace (length (content ++ [x])) with (length (content ++ [nil_lp])) by (rewrite !app_length; reflexivity).
+  rewrite skipn_exact.
+  replace (length ((content ++ [nil_lp]) ++ repeat nil_lp r)) with (length ((content ++ [x]) ++ repeat nil_lp r))
+    by (rewrite !app_length; reflexivity).
+  rewrite <- (app_nil_r ((content ++ [x]) ++ repeat nil_lp r)) at 2. apply firstn_exact.
+Qed.
+Lemma h_append_inplace (h : heap) content r x :
+  h_append (h ++ [content ++ repeat nil_lp (S r)]) (mkSlice (length h) (length content)) x
+  = (h ++ [(content ++ [x]) ++ repeat nil_lp r], mkSlice (length h) (S (length content))).
+Proof.
+  unfold h_append, s_cap, s_read. cbn [s_arr s_len]. rewrite h_arr_last.
+  assert (L : Nat.ltb (length content) (length (content ++ repeat nil_lp (S r))) = true).
+  { apply Nat.ltb_lt. rewrite app_length, repeat_length. lia. }
+  rewrite L, h_put_last, firstn_exact, put_cells. reflexivity.
+Qed.
+Lemma append_all_cons h s x ls :
+  append_all h s (x :: ls) = append_all (fst (h_append h s x)) (snd (h_append h s x)) ls.
+Proof. unfold append_all. cbn [fold_left fst snd]. destruct (h_append h s x); reflexivity. Qed.
 Lemma append_all_inplace : forall ls content r (h : heap),
   (length ls <= r)%nat ->
   append_all (h ++ [content ++ repeat nil_lp r]) (mkSlice (length h) (length content)) ls
   = (h ++ [content ++ ls ++ repeat nil_lp (r - length ls)], mkSlice (length h) (length content + length ls)).
 Proof.
   induction ls as [|x ls IH]; intros content r h Hr.
-  - unfold append_all. simpl. rewrite Nat.sub_0_r, Nat.add_0_r. reflexivity.
-  - simpl in Hr. destruct r as [|r]; [lia|].
-    unfold append_all. simpl fold_left. unfold h_append at 2. unfold s_cap, s_read. simpl s_arr. simpl s_len.
-    rewrite h_arr_last. rewrite app_length, repeat_length.
-    assert (L : Nat.ltb (length content) (length content + S r) = true) by (apply Nat.ltb_lt; lia).
-    rewrite L. simpl fst. simpl snd. rewrite h_put_last, firstn_exact.
-    replace (firstn (length (content ++ repeat nil_lp (S r)))
-               ((content ++ [x]) ++ skipn (length (content ++ [x])) (content ++ repeat nil_lp (S r))))
-      with ((content ++ [x]) ++ repeat nil_lp r).
-    + pose proof (IH (content ++ [x]) r h) as Q. unfold append_all in Q.
-      rewrite app_length in Q. simpl length in Q. rewrite Q by lia.
-      rewrite <- !app_assoc. simpl. f_equal. lia.
-    + rewrite app_length. simpl length. rewrite <- (app_assoc content [x]). simpl app.
-      replace (length content + 1)%nat with (length (content ++ [nil_lp])) by (rewrite app_length; reflexivity).
-      replace (content ++ repeat nil_lp (S r)) with ((content ++ [nil_lp]) ++ repeat nil_lp r)
-        by (rewrite <- app_assoc; reflexivity).
-      rewrite skipn_exact. rewrite app_length, repeat_length. simpl length.
-      replace (length content + 1 + r)%nat with (length (content ++ x :: repeat nil_lp r))
-        by (rewrite app_length; simpl; rewrite repeat_length; lia).
-      rewrite <- (app_nil_r (content ++ x :: repeat nil_lp r)) at 2. rewrite firstn_exact.
-      rewrite <- app_assoc. reflexivity.
+  - unfold append_all. cbn [fold_left length app]. rewrite Nat.sub_0_r, Nat.add_0_r. reflexivity.
+  - cbn [length] in Hr. destruct r as [|r]; [lia|].
+    rewrite append_all_cons, h_append_inplace. cbn [fst snd].
+    pose proof (IH (content ++ [x]) r h) as Q. rewrite app_length in Q. cbn [length] in Q.
+    replace (S (length content)) with (length content + 1)%nat by lia.
+    rewrite Q by lia. rewrite <- !app_assoc. cbn [app length]. f_equal. f_equal. lia.
 Qed.
 
 Definition slice_ok (h : heap) (s : slice) : Prop :=
@@ -558,33 +568,30 @@ Proof. intros [H1 H2]. split; [rewrite app_length; lia|]. rewrite h_arr_old by e
 (* one wrapper adding a non-empty label set over a valid slice *)
 Lemma wrap_write_step (h : heap) (s : slice) (ls : labels) :
   slice_ok h s -> ls <> [] ->
-  let n := s_len s in
-  let '(h2, o) := h_make h n (n + length ls) in
-  let h3 := h_copy h2 o s in
-  let '(h4, o4) := append_all h3 o ls in
-  h_sort h4 o4 = h ++ [sort_lp (s_read h s ++ ls)] /\ o4 = mkSlice (length h) (n + length ls).
+  append_all (h_copy (h ++ [repeat nil_lp (s_len s + length ls)]) (mkSlice (length h) (s_len s)) s)
+             (mkSlice (length h) (s_len s)) ls
+  = (h ++ [s_read h s ++ ls], mkSlice (length h) (s_len s + length ls)) /\
+  h_sort (h ++ [s_read h s ++ ls]) (mkSlice (length h) (s_len s + length ls))
+  = h ++ [sort_lp (s_read h s ++ ls)].
 Proof.
-  intros Hs Hne. pose proof (s_read_length h s Hs) as Ln. cbv zeta. unfold h_make.
-  unfold h_copy. simpl s_arr. simpl s_len. rewrite Nat.min_id.
-  rewrite (s_read_old h _ s Hs). rewrite <- Ln at 3. rewrite <- (app_nil_r (s_read h s)) at 2.
-  rewrite firstn_exact. rewrite h_put_last. rewrite repeat_length.
-  replace (firstn (s_len s + length ls) (s_read h s ++ skipn (length (s_read h s)) (repeat nil_lp (s_len s + length ls))))
-    with (s_read h s ++ repeat nil_lp (length ls)).
-  2:{ rewrite Ln, skipn_repeat.
-      replace (s_len s + length ls)%nat with (length (s_read h s ++ repeat nil_lp (length ls)))
-        by (rewrite app_length, repeat_length; lia).
-      rewrite <- (app_nil_r (s_read h s ++ repeat nil_lp (length ls))) at 2. rewrite firstn_exact. reflexivity. }
-  rewrite <- Ln at 1. rewrite (append_all_inplace ls (s_read h s) (length ls) h) by lia.
-  rewrite Nat.sub_diag. simpl repeat. rewrite app_nil_r. rewrite Ln. split; [|reflexivity].
-  unfold h_sort, s_read. simpl s_arr. simpl s_len. rewrite h_arr_last.
-  replace (s_len s + length ls)%nat with (length (s_read h s ++ ls)) by (rewrite app_length; lia).
-  rewrite <- (app_nil_r (s_read h s ++ ls)) at 2. rewrite firstn_exact. rewrite h_put_last.
-  f_equal. f_equal.
-  assert (Lq : length (sort_lp (s_read h s ++ ls)) = length (s_read h s ++ ls))
+  intros Hs Hne. pose proof (s_read_length h s Hs) as Ln. set (orig := s_read h s) in *.
+  assert (C : h_copy (h ++ [repeat nil_lp (s_len s + length ls)]) (mkSlice (length h) (s_len s)) s
+              = h ++ [orig ++ repeat nil_lp (length ls)]).
+  { unfold h_copy. cbn [s_arr s_len]. rewrite Nat.min_id, (s_read_old h _ s Hs). fold orig.
+    rewrite (firstn_all2 orig) by lia. rewrite h_put_last, repeat_length, Ln, skipn_repeat.
+    rewrite firstn_all2 by (rewrite app_length, repeat_length; lia). reflexivity. }
+  rewrite C.
+  assert (A : append_all (h ++ [orig ++ repeat nil_lp (length ls)]) (mkSlice (length h) (s_len s)) ls
+              = (h ++ [orig ++ ls], mkSlice (length h) (s_len s + length ls))).
+  { rewrite <- Ln. rewrite (append_all_inplace ls orig (length ls) h) by lia.
+    rewrite Nat.sub_diag. cbn [repeat]. rewrite app_nil_r. reflexivity. }
+  rewrite A. split; [reflexivity|].
+  unfold h_sort, s_read. cbn [s_arr s_len]. rewrite h_arr_last.
+  rewrite (firstn_all2 (orig ++ ls)) by (rewrite app_length; lia).
+  rewrite h_put_last. f_equal. f_equal.
+  assert (Lq : length (sort_lp (orig ++ ls)) = length (orig ++ ls))
     by (apply Permutation_length; apply sort_lp_perm).
-  rewrite <- Lq at 2. rewrite <- (app_nil_r (s_read h s ++ ls)) at 3. rewrite <- Lq at 1.
-  rewrite (skipn_all2 (s_read h s ++ ls)) by lia. rewrite app_nil_r.
-  rewrite <- (app_nil_r (sort_lp (s_read h s ++ ls))) at 2. apply firstn_exact.
+  rewrite Lq, skipn_all, app_nil_r. rewrite firstn_all2 by lia. reflexivity.
 Qed.
 
 Fixpoint m_base_ok (h : heap) (m : metric) : Prop :=
@@ -613,20 +620,366 @@ Proof.
     + destruct Hr as (Hw & Hp & Hs & Hl). destruct ls as [|l0 ls0].
       * simpl. exists e. split; [reflexivity|]. simpl. rewrite Hl. auto.
       * assert (Hne : l0 :: ls0 <> []) by discriminate.
-        pose proof (wrap_write_step (h ++ e) s (l0 :: ls0) Hs Hne) as Q. cbv zeta in Q.
-        simpl is_nil. cbv iota.
-        destruct (h_make (h ++ e) (s_len s) (s_len s + length (l0 :: ls0))) as [h2 o].
-        destruct (append_all (h_copy h2 o s) o (l0 :: ls0)) as [h4 o4].
-        destruct Q as [Q1 Q2]. exists (e ++ [sort_lp (s_read (h ++ e) s ++ l0 :: ls0)]).
-        simpl fst. simpl snd. rewrite Q1, app_assoc. split; [reflexivity|].
-        split; [exact Hw|]. split; [exact Hp|]. subst o4. split.
-        { split; simpl; [rewrite !app_length; simpl; lia|].
+        destruct (wrap_write_step (h ++ e) s (l0 :: ls0) Hs Hne) as [Q1 Q2].
+        cbn [is_nil]. unfold h_make. cbv beta iota zeta. rewrite Q1. cbv beta iota. rewrite Q2.
+        exists (e ++ [sort_lp (s_read (h ++ e) s ++ l0 :: ls0)]).
+        cbn [fst snd]. rewrite app_assoc. split; [reflexivity|].
+        split; [exact Hw|]. split; [exact Hp|]. split.
+        { unfold slice_ok. cbn [s_arr s_len]. split; [rewrite (app_length (h ++ e)); cbn [length]; lia|].
           rewrite h_arr_last. rewrite (Permutation_length (sort_lp_perm _)), app_length.
           rewrite (s_read_length _ _ Hs). lia. }
-        unfold s_read at 1. simpl s_arr. simpl s_len. rewrite h_arr_last.
-        simpl m_labels. unfold spec_labels. simpl is_nil. cbv iota. rewrite <- Hl.
+        unfold s_read at 1. cbn [s_arr s_len]. rewrite h_arr_last.
+        cbn [m_labels]. unfold spec_labels. cbn [is_nil]. rewrite <- Hl.
         replace (s_len s + length (l0 :: ls0))%nat with (length (sort_lp (s_read (h ++ e) s ++ l0 :: ls0))).
         { rewrite <- (app_nil_r (sort_lp _)) at 2. apply firstn_exact. }
         rewrite (Permutation_length (sort_lp_perm _)), app_length, (s_read_length _ _ Hs). reflexivity.
     + exists e. split; [reflexivity|exact Hr].
+Qed.
+
+(* ---------------- labels written through any nesting = "original plus added, sorted" ---------------- *)
+Lemma wrap_metric_snoc m ly l : wrap_metric m (ly ++ [l]) = MWrap (wrap_metric m ly) (fst l) (snd l).
+Proof. unfold wrap_metric. rewrite fold_left_app. reflexivity. Qed.
+Lemma all_added_snoc ly l : all_added (ly ++ [l]) = all_added ly ++ snd l.
+Proof. unfold all_added. rewrite flat_map_app. simpl. rewrite app_nil_r. reflexivity. Qed.
+Lemma m_base_ok_wrap h m ly : m_base_ok h (wrap_metric m ly) <-> m_base_ok h m.
+Proof.
+  induction ly as [|l ly IH] using rev_ind; [reflexivity|]. rewrite wrap_metric_snoc. simpl. exact IH.
+Qed.
+
+Lemma m_labels_flat h m : forall ly,
+  let out := m_labels h (wrap_metric m ly) in
+  (all_added ly = [] -> out = m_labels h m) /\
+  (all_added ly <> [] -> sorted_lp out = true /\ Permutation (m_labels h m ++ all_added ly) out).
+Proof.
+  induction ly as [|l ly IH] using rev_ind; cbv zeta.
+  - split; [reflexivity|]. intros H. exfalso. apply H. reflexivity.
+  - cbv zeta in IH. destruct IH as [IH1 IH2]. rewrite wrap_metric_snoc, all_added_snoc. cbn [m_labels].
+    unfold spec_labels. destruct (snd l) as [|x ls'] eqn:El.
+    + cbn [is_nil]. rewrite app_nil_r. split; assumption.
+    + cbn [is_nil]. split.
+      * intros H. apply app_eq_nil in H. destruct H as [_ H]. discriminate.
+      * intros _. split; [apply sort_lp_sorted|].
+        eapply Permutation_trans; [|apply Permutation_sym; apply sort_lp_perm].
+        rewrite app_assoc. apply Permutation_app_tail.
+        destruct (all_added ly) as [|a al] eqn:Ea.
+        { rewrite IH1 by reflexivity. rewrite app_nil_r. apply Permutation_refl. }
+        apply IH2. discriminate.
+Qed.
+
+Lemma m_labels_ok_lemma h m ly :
+  labels_ok (m_labels h m) (all_added ly) (m_labels h (wrap_metric m ly)) = true.
+Proof.
+  destruct (m_labels_flat h m ly) as [H1 H2]. unfold labels_ok.
+  destruct (all_added ly) as [|a al] eqn:Ea; cbn [is_nil].
+  - rewrite H1 by reflexivity. apply labels_eqb_eq. reflexivity.
+  - destruct H2 as [S P]; [discriminate|]. rewrite S. simpl. apply is_perm_complete. exact P.
+Qed.
+
+(* with distinct names the checker determines the output: it is spec_labels *)
+Lemma labels_ok_unique_lemma orig added out :
+  NoDup (map fst (orig ++ added)) -> labels_ok orig added out = true -> out = spec_labels orig added.
+Proof.
+  intros N H. unfold labels_ok in H. unfold spec_labels. destruct added as [|a0 al]; cbn [is_nil] in *.
+  - apply labels_eqb_eq in H. symmetry. exact H.
+  - apply andb_true_iff in H. destruct H as [S P]. apply sort_lp_unique; [exact N|exact S|].
+    apply is_perm_sound. exact P.
+Qed.
+
+(* ---------------- sequences of wrapped and unwrapped writes ---------------- *)
+Fixpoint run_seq (h : heap) (ms : list metric) : heap :=
+  match ms with [] => h | m :: r => run_seq (fst (m_write h m)) r end.
+Lemma m_base_ok_ext h e m : m_base_ok h m -> m_base_ok (h ++ e) m.
+Proof. induction m; simpl; [apply slice_ok_ext|exact IHm]. Qed.
+Lemma run_seq_ext : forall ms h, Forall (m_base_ok h) ms -> exists e, run_seq h ms = h ++ e.
+Proof.
+  induction ms as [|m r IH]; intros h F; simpl.
+  - exists []. rewrite app_nil_r. reflexivity.
+  - inversion F as [|? ? Fm Fr]; subst. destruct (m_write_spec_lemma m h Fm) as (e & He & _).
+    rewrite He. destruct (IH (h ++ e)) as [e2 H2].
+    + eapply Forall_impl; [|exact Fr]. intros m0. apply m_base_ok_ext.
+    + exists (e ++ e2). rewrite H2, app_assoc. reflexivity.
+Qed.
+
+(* ---------------- Registry: Unregister through the same wrapper undoes Register ---------------- *)
+Lemma zmem_in x l : zmem x l = true <-> In x l.
+Proof.
+  unfold zmem. rewrite existsb_exists. split.
+  - intros (y & Hy & E). apply Z.eqb_eq in E. subst. exact Hy.
+  - intros H. exists x. split; [exact H|apply Z.eqb_refl].
+Qed.
+Lemma id_step_fold_in : forall l acc i,
+  In i (fst (fold_left id_step l acc)) -> In i (fst acc) \/ In i l.
+Proof.
+  induction l as [|x l IH]; intros acc i H; simpl in H; [left; exact H|].
+  destruct (IH _ _ H) as [H1|H1]; [|right; right; exact H1].
+  unfold id_step in H1. destruct (zmem x (fst acc)); [left; exact H1|].
+  simpl in H1. destruct H1 as [->|H1]; [right; left; reflexivity|left; exact H1].
+Qed.
+Lemma id_step_fold_nonempty : forall l acc, fst acc <> [] -> fst (fold_left id_step l acc) <> [].
+Proof.
+  induction l as [|x l IH]; intros acc H; simpl; [exact H|]. apply IH.
+  unfold id_step. destruct (zmem x (fst acc)); [exact H|simpl; discriminate].
+Qed.
+
+Section RegistryProofs.
+Variable hash : str -> Z.
+
+Lemma reg_loop_acc r : forall ds st st',
+  reg_loop hash r ds st = inr st' ->
+  (l_ids st', l_cid st') = fold_left id_step (map (desc_id hash) ds) (l_ids st, l_cid st) /\
+  (l_dup st' = false -> l_dup st = false /\ forall d, In d ds -> zmem (desc_id hash d) (r_ids r) = false).
+Proof.
+  induction ds as [|d rest IH]; intros st st' H; simpl in H.
+  - inversion H; subst. split; [reflexivity|]. intros D. split; [exact D|]. intros d [].
+  - destruct (d_err d); [discriminate|].
+    assert (K : forall dims, reg_loop hash r rest
+                 (mkL (fst (id_step (l_ids st, l_cid st) (desc_id hash d))) dims
+                      (snd (id_step (l_ids st, l_cid st) (desc_id hash d)))
+                      (l_dup st || zmem (desc_id hash d) (r_ids r))) = inr st' ->
+              (l_ids st', l_cid st') = fold_left id_step (map (desc_id hash) (d :: rest)) (l_ids st, l_cid st) /\
+              (l_dup st' = false -> l_dup st = false /\
+                 forall d0, In d0 (d :: rest) -> zmem (desc_id hash d0) (r_ids r) = false)).
+    { intros dims Hd. destruct (IH _ _ Hd) as [A B]. cbn [l_ids l_cid l_dup] in A, B. split.
+      - rewrite A. cbn [map fold_left]. destruct (id_step (l_ids st, l_cid st) (desc_id hash d)); reflexivity.
+      - intros D. destruct (B D) as [B1 B2]. apply orb_false_iff in B1. destruct B1 as [B1 B3].
+        split; [exact B1|]. intros d0 [<-|Hd0]; [exact B3|apply B2; exact Hd0]. }
+    destruct (sassoc (d_fq d) (r_dims r)) as [dh|].
+    + destruct (negb (dh =? desc_dim hash d)); [discriminate|]. apply (K _ H).
+    + destruct (sassoc (d_fq d) (l_dims st)) as [dh|].
+      * destruct (negb (dh =? desc_dim hash d)); [discriminate|]. apply (K _ H).
+      * apply (K _ H).
+Qed.
+Lemma reg_loop_inl_not_ok r : forall ds st e, reg_loop hash r ds st = inl e -> e <> ROk.
+Proof.
+  induction ds as [|d rest IH]; intros st e H; simpl in H; [discriminate|].
+  destruct (d_err d); [inversion H; discriminate|].
+  destruct (sassoc (d_fq d) (r_dims r)) as [dh|].
+  - destruct (negb (dh =? desc_dim hash d)); [inversion H; discriminate|]. eapply IH; exact H.
+  - destruct (sassoc (d_fq d) (l_dims st)) as [dh|].
+    + destruct (negb (dh =? desc_dim hash d)); [inversion H; discriminate|]. eapply IH; exact H.
+    + eapply IH; exact H.
+Qed.
+
+Lemma zassoc_none_filter (k : Z) (l : list (Z * Z)) :
+  zassoc k l = None -> filter (fun p => negb (fst p =? k)) l = l.
+Proof.
+  induction l as [|p r IH]; simpl; intros H; [reflexivity|].
+  destruct (fst p =? k); [discriminate|]. simpl. rewrite IH by exact H. reflexivity.
+Qed.
+Lemma filter_all_out (ids : list Z) : filter (fun i => negb (zmem i ids)) ids = [].
+Proof.
+  assert (G : forall l, (forall i, In i l -> In i ids) -> filter (fun i => negb (zmem i ids)) l = []).
+  { induction l as [|x l IH]; intros H; simpl; [reflexivity|].
+    rewrite (proj2 (zmem_in x ids)) by (apply H; left; reflexivity). simpl. apply IH.
+    intros i Hi. apply H. right. exact Hi. }
+  apply G. auto.
+Qed.
+Lemma filter_all_in (ids l : list Z) :
+  (forall i, In i l -> ~ In i ids) -> filter (fun i => negb (zmem i ids)) l = l.
+Proof.
+  induction l as [|x l IH]; intros H; simpl; [reflexivity|].
+  destruct (zmem x ids) eqn:E.
+  - apply zmem_in in E. exfalso. apply (H x); [left; reflexivity|exact E].
+  - simpl. rewrite IH; [reflexivity|]. intros i Hi. apply H. right. exact Hi.
+Qed.
+
+Lemma unregister_after_register_lemma : forall r tag ds r',
+  register hash r tag ds = (r', ROk) -> ds <> [] ->
+  exists r'', unregister hash r' ds = (r'', true) /\
+              r_coll r'' = r_coll r /\ r_ids r'' = r_ids r /\ r_unchecked r'' = r_unchecked r.
+Proof.
+  intros r tag ds r' H Hne. unfold register in H.
+  destruct (reg_loop hash r ds (mkL [] [] 0 false)) as [e|st] eqn:EL.
+  { inversion H; subst. exfalso. exact (reg_loop_inl_not_ok _ _ _ _ EL eq_refl). }
+  destruct (reg_loop_acc _ _ _ _ EL) as [A B]. cbn [l_ids l_cid l_dup] in A, B.
+  destruct (is_nil (l_ids st)) eqn:En.
+  { exfalso. destruct ds as [|d rest]; [apply Hne; reflexivity|].
+    assert (Q : fst (fold_left id_step (map (desc_id hash) (d :: rest)) ([], 0)) <> []).
+    { cbn [map fold_left]. apply id_step_fold_nonempty. unfold id_step. simpl. discriminate. }
+    rewrite <- A in Q. simpl in Q. destruct (l_ids st); [apply Q; reflexivity|discriminate]. }
+  destruct (zassoc (l_cid st) (r_coll r)) eqn:Ez; [inversion H|].
+  destruct (l_dup st) eqn:Ed; [inversion H|]. inversion H; subst r'. clear H.
+  destruct (B eq_refl) as [_ B2].
+  unfold unregister, unreg_ids. rewrite <- A. cbn [fst snd r_coll r_ids r_dims r_unchecked zassoc].
+  rewrite Z.eqb_refl. eexists. split; [reflexivity|]. cbn [r_coll r_ids r_unchecked filter fst].
+  rewrite Z.eqb_refl. cbn [negb]. split; [apply zassoc_none_filter; exact Ez|]. split; [|reflexivity].
+  rewrite filter_app, filter_all_out. cbn [app]. apply filter_all_in.
+  intros i Hi Hin.
+  assert (Hs : In i (fst (fold_left id_step (map (desc_id hash) ds) ([], 0)))) by (rewrite <- A; exact Hin).
+  apply id_step_fold_in in Hs. destruct Hs as [[]|Hs]. apply in_map_iff in Hs.
+  destruct Hs as (d & Ed' & Hd). specialize (B2 d Hd). rewrite Ed' in B2.
+  apply (proj2 (zmem_in i (r_ids r))) in Hi. congruence.
+Qed.
+End RegistryProofs.
+
+(* ---------------- nesting = composition ---------------- *)
+Lemma bool_eq_iff (a b : bool) : (a = true <-> b = true) -> a = b.
+Proof. destruct a, b; intros [H1 H2]; try reflexivity; [symmetry; apply H1|apply H2]; reflexivity. Qed.
+Lemma native_reject_perm fq c1 c2 var : Permutation c1 c2 -> native_reject fq c1 var = native_reject fq c2 var.
+Proof.
+  intros P. unfold native_reject.
+  apply f_equal2; [apply f_equal2; [apply f_equal2; [apply f_equal2; [reflexivity|]|]|reflexivity]|].
+  - apply existsb_perm. exact P.
+  - apply existsb_perm. exact P.
+  - apply f_equal. apply bool_eq_iff. rewrite !dedup_length_nodup.
+    split; apply Permutation_NoDup; apply Permutation_app_tail; apply Permutation_map;
+      [exact P|apply Permutation_sym; exact P].
+Qed.
+
+Lemma nodup_app_l {A} (l1 l2 : list A) : NoDup (l1 ++ l2) -> NoDup l1.
+Proof.
+  induction l1 as [|x r IH]; intros N; [constructor|]. simpl in N. inversion N; subst. constructor.
+  - intros I. apply H1. apply in_or_app. left. exact I.
+  - apply IH. assumption.
+Qed.
+Lemma nodup_app_r {A} (l1 l2 : list A) : NoDup (l1 ++ l2) -> NoDup l2.
+Proof. induction l1 as [|x r IH]; intros N; [exact N|]. simpl in N. inversion N; subst. apply IH. assumption. Qed.
+Lemma spec_wrap1_compose_lemma : forall fq help cst var p1 l1 p2 l2 fq' help' cst' var',
+  spec_wrap1 (spec_wrap1 (SAccept fq help cst var) p1 l1) p2 l2 = SAccept fq' help' cst' var' ->
+  spec_wrap1 (SAccept fq help cst var) (p2 ++ p1) (l1 ++ l2) = SAccept fq' help' cst' var' /\
+  NoDup (map fst (l1 ++ l2)).
+Proof.
+  intros fq help cst var p1 l1 p2 l2 fq' help' cst' var' H. unfold spec_wrap1 in *.
+  destruct (existsb (fun l => map_mem (fst l) cst) l1) eqn:C1; [discriminate|].
+  destruct (native_reject (p1 ++ fq) (cst ++ l1) var) eqn:N1; [discriminate|].
+  destruct (existsb (fun l => map_mem (fst l) (sort_lp (cst ++ l1))) l2) eqn:C2; [discriminate|].
+  destruct (native_reject (p2 ++ p1 ++ fq) (sort_lp (cst ++ l1) ++ l2) var) eqn:N2; [discriminate|].
+  inversion H; subst. clear H.
+  assert (P : Permutation (sort_lp (cst ++ l1) ++ l2) (cst ++ l1 ++ l2)).
+  { rewrite app_assoc. apply Permutation_app_tail. apply sort_lp_perm. }
+  assert (ND : NoDup (map fst (cst ++ l1 ++ l2))).
+  { apply native_reject_false_iff_lemma in N2. destruct N2 as (_ & _ & _ & N2).
+    apply nodup_app_l in N2. eapply Permutation_NoDup; [apply Permutation_map; exact P|exact N2]. }
+  split.
+  2:{ rewrite map_app in ND. apply nodup_app_r in ND. rewrite map_app in ND. rewrite map_app. exact ND. }
+  assert (C3 : existsb (fun l => map_mem (fst l) cst) l2 = false).
+  { apply not_true_is_false. intros T. apply existsb_exists in T. destruct T as (q & Hq & Eq).
+    assert (T2 : existsb (fun l => map_mem (fst l) (sort_lp (cst ++ l1))) l2 = true).
+    { apply existsb_exists. exists q. split; [exact Hq|]. apply map_mem_in.
+      eapply Permutation_in; [apply Permutation_map; apply Permutation_sym; apply sort_lp_perm|].
+      rewrite map_app. apply in_or_app. left. apply map_mem_in. exact Eq. }
+    congruence. }
+  match goal with |- (if ?b then _ else _) = _ => assert (Eb : b = false) end.
+  { rewrite existsb_app. apply orb_false_iff. split; [exact C1|exact C3]. }
+  rewrite Eb.
+  match goal with |- (if ?b then _ else _) = _ => assert (Eb2 : b = false) end.
+  { rewrite <- app_assoc, <- (native_reject_perm _ _ _ _ P). exact N2. }
+  rewrite Eb2, <- app_assoc. f_equal. symmetry.
+  apply sort_lp_unique; [exact ND|apply sort_lp_sorted|].
+  eapply Permutation_trans; [apply Permutation_sym; exact P|apply Permutation_sym; apply sort_lp_perm].
+Qed.
+
+Lemma wrap_nested_is_composition_lemma : forall d p1 l1 p2 l2 fq help cst var,
+  desc_wf d -> NoDup (map fst l1) -> NoDup (map fst l2) ->
+  abs_wres (wrap_layers d [(p1, l1); (p2, l2)]) = SAccept fq help cst var ->
+  abs_wres (wrap_layers d [(p2 ++ p1, l1 ++ l2)]) = SAccept fq help cst var.
+Proof.
+  intros d p1 l1 p2 l2 fq help cst var W N1 N2 H.
+  assert (L2 : layers_ok [(p1, l1); (p2, l2)]) by (repeat constructor; assumption).
+  destruct (wrap_layers_matches_spec_lemma _ d W L2) as [A _]. rewrite A in H.
+  unfold spec_wrap in H. cbn [fold_left fst snd] in H.
+  destruct (abs_desc d) as [|i f0 h0 c0 v0| |f0 h0 c0 v0] eqn:Ea; try discriminate.
+  destruct (spec_wrap1_compose_lemma _ _ _ _ _ _ _ _ _ _ _ _ H) as [H1 H2].
+  assert (L1 : layers_ok [(p2 ++ p1, l1 ++ l2)]) by (repeat constructor; exact H2).
+  destruct (wrap_layers_matches_spec_lemma _ d W L1) as [B _]. rewrite B, Ea.
+  unfold spec_wrap. cbn [fold_left fst snd]. exact H1.
+Qed.
+
+(* ---------------- statements used by Properties/C13.v ---------------- *)
+Lemma abs_reject_iff d : desc_wf d -> (abs_desc d = SReject \/ exists i a b c e, abs_desc d = SUserErr i a b c e) <-> d_err d <> None.
+Proof.
+  intros [_ Hv]. unfold abs_desc. destruct (d_err d) as [e|] eqn:He.
+  - split; [intros _; discriminate|]. intros _. destruct e; try (left; reflexivity).
+    right. repeat eexists.
+  - destruct (Hv eq_refl) as [v ->]. split.
+    + intros [H|(i & a & b & c & e & H)]; discriminate.
+    + intros H. exfalso. apply H. reflexivity.
+Qed.
+
+Lemma wrap_desc_conflict_iff_lemma : forall d p ls v d',
+  desc_wf d -> d_err d = None -> d_var d = Some v -> NoDup (map fst ls) ->
+  wrap_desc d p ls = WDesc d' ->
+  (d_err d' <> None <->
+   (exists l, In l ls /\ In (fst l) (map fst (d_const d))) \/
+   native_reject (p ++ d_fq d) (d_const d ++ ls) v = true).
+Proof.
+  intros d p ls v d' W He Hv Nl Hw.
+  destruct (wrap_desc_matches_spec_lemma d p ls W Nl) as (A & d1 & E1 & W1).
+  rewrite Hw in E1. inversion E1; subst d1. rewrite Hw in A. cbn [abs_wres] in A.
+  rewrite <- (abs_reject_iff d' W1).
+  assert (Ea : abs_desc d = SAccept (d_fq d) (d_help d) (d_const d) v)
+    by (unfold abs_desc; rewrite He, Hv; reflexivity).
+  rewrite Ea in A. unfold spec_wrap1 in A.
+  destruct (existsb (fun l => map_mem (fst l) (d_const d)) ls) eqn:C.
+  - split; [|intros _; left; exact A]. intros _. left. apply existsb_exists in C.
+    destruct C as (l & Hl & Hm). exists l. split; [exact Hl|apply map_mem_in; exact Hm].
+  - destruct (native_reject (p ++ d_fq d) (d_const d ++ ls) v) eqn:NR.
+    + split; [intros _; right; reflexivity|intros _; left; exact A].
+    + split.
+      * intros [H|(i & a & b & c & e & H)]; rewrite A in H; discriminate.
+      * intros [(l & Hl & Hm)|H]; [|discriminate]. exfalso.
+        assert (T : existsb (fun l => map_mem (fst l) (d_const d)) ls = true).
+        { apply existsb_exists. exists l. split; [exact Hl|apply map_mem_in; exact Hm]. }
+        congruence.
+Qed.
+
+(* an accepted wrapped descriptor is the renamed original *)
+Lemma wrap_gather_is_rename_desc_lemma : forall d p ls d',
+  desc_wf d -> NoDup (map fst ls) -> wrap_desc d p ls = WDesc d' -> d_err d' = None ->
+  d_err d = None /\ d_fq d' = p ++ d_fq d /\ d_help d' = d_help d /\ d_var d' = d_var d /\
+  d_const d' = sort_lp (d_const d ++ ls).
+Proof.
+  intros d p ls d' W Nl Hw He'.
+  destruct (wrap_desc_matches_spec_lemma d p ls W Nl) as (A & d1 & E1 & [_ V1]).
+  rewrite Hw in E1. inversion E1; subst d1. rewrite Hw in A. cbn [abs_wres] in A.
+  destruct (V1 He') as [v' Hv']. unfold abs_desc in A at 1. rewrite He', Hv' in A.
+  destruct W as [Nc Hv]. destruct (d_err d) as [e|] eqn:He.
+  { exfalso. rewrite (wrap_invalid_desc_propagates_lemma d p ls e He) in Hw. inversion Hw; subst. congruence. }
+  destruct (Hv eq_refl) as [v Hvar]. unfold abs_desc in A. rewrite He, Hvar in A. unfold spec_wrap1 in A.
+  destruct (existsb (fun l => map_mem (fst l) (d_const d)) ls); [discriminate|].
+  destruct (native_reject (p ++ d_fq d) (d_const d ++ ls) v); [discriminate|].
+  inversion A; subst. rewrite Hv', Hvar. auto.
+Qed.
+
+(* wrapped Write: payload untouched, labels = original plus added, sorted; original heap untouched *)
+Lemma wrap_gather_is_rename_metric_lemma : forall h m ly,
+  m_base_ok h m -> m_werr m = false ->
+  exists e s, m_write h (wrap_metric m ly) = (h ++ e, Some (s, m_payload m)) /\
+              labels_ok (m_labels h m) (all_added ly) (s_read (h ++ e) s) = true.
+Proof.
+  intros h m ly Hok Hw.
+  destruct (m_write_spec_lemma (wrap_metric m ly) h (proj2 (m_base_ok_wrap h m ly) Hok)) as (e & He & Hr).
+  assert (Ew : forall ly, m_werr (wrap_metric m ly) = m_werr m).
+  { induction ly0 as [|l l0 IH] using rev_ind; [reflexivity|]. rewrite wrap_metric_snoc. exact IH. }
+  assert (Ep : forall ly, m_payload (wrap_metric m ly) = m_payload m).
+  { induction ly0 as [|l l0 IH] using rev_ind; [reflexivity|]. rewrite wrap_metric_snoc. exact IH. }
+  destruct (m_write h (wrap_metric m ly)) as [h1 r]. cbn [fst snd] in He, Hr. subst h1.
+  destruct r as [[s pay]|].
+  - destruct Hr as (_ & Hp & _ & Hl). exists e, s. rewrite Hp, Ep. split; [reflexivity|].
+    rewrite Hl. apply m_labels_ok_lemma.
+  - rewrite Ew in Hr. congruence.
+Qed.
+
+Lemma wrap_does_not_alter_original_lemma : forall h ms,
+  Forall (m_base_ok h) ms ->
+  let h' := run_seq h ms in
+  (forall a, (a < length h)%nat -> h_arr h' a = h_arr h a) /\
+  (forall s, slice_ok h s -> s_read h' s = s_read h s) /\
+  (forall d w lbl pay, slice_ok h lbl -> m_write h' (MBase d w lbl pay) = (h', snd (m_write h (MBase d w lbl pay)))).
+Proof.
+  intros h ms F. cbv zeta. destruct (run_seq_ext ms h F) as [e ->]. split; [|split].
+  - intros a Ha. apply h_arr_old. exact Ha.
+  - intros s Hs. apply s_read_old. exact Hs.
+  - intros d w lbl pay _. simpl. destruct w; reflexivity.
+Qed.
+
+Lemma wrap_unregister_removes_lemma : forall hash r c ly r' ds,
+  describe (wrap_collector c ly) = Some ds -> ds <> [] ->
+  register_collector hash r (wrap_collector c ly) = Some (r', ROk) ->
+  exists r'', unregister_collector hash r' (wrap_collector c ly) = Some (r'', true) /\
+              r_coll r'' = r_coll r /\ r_ids r'' = r_ids r /\ r_unchecked r'' = r_unchecked r.
+Proof.
+  intros hash r c ly r' ds Hd Hne H. unfold register_collector, unregister_collector in *. rewrite Hd in *.
+  inversion H as [H1]. destruct (unregister_after_register_lemma hash r _ ds r' H1 Hne) as (r'' & U & Q).
+  exists r''. rewrite U. split; [reflexivity|exact Q].
 Qed.
